@@ -15,7 +15,8 @@
    place); the correspondence runs re-read every cursor after every move of any other. *)
 From Coq Require Import ZArith List Lia.
 Import ListNotations.
-From Mds Require Import Stree.StreeModel Stree.StreeSpec Stree.CursorModel Stree.CursorSpec Stree.CursorProofs.
+From Mds Require Import Stree.StreeModel Stree.StreeSpec Stree.StreeProofsSet Stree.CursorModel Stree.CursorSpec
+  Stree.CursorProofs.
 
 (* Every history of Next/Prev/Left/Right/Up/Min/Max, from any cursor inside any tree (ordering is
    not needed: these are facts about positions), for any zero key: no panic, no fuel exhaustion,
@@ -42,6 +43,15 @@ Theorem C03_moves : forall (T : Type) (t : tree T) (c : cursor) (ms : list move)
              follows (length (inorder t)) (abs T t c) ms (map (abs T t) cs).
 Proof. intros T t c ms. exact (run_spec T ms t c). Qed.
 Print Assumptions C03_moves.
+
+(* Inorder with a consumer that may stop (yield returning false), for any consumer: it is fed, in
+   order, exactly the keys the full Inorder lists (C03_history: Ls[lo..hi)), until it stops
+   ([list_until]: feed a list to a stateful consumer until it returns false). *)
+Theorem C03_inorder_stop : forall (T S : Type) (f : S -> T -> S * bool) (s : S) (t : tree T) (c : cursor),
+  wf T t c ->
+  exists ys, cinorder_all t c = Ok ys /\ cinorder t c f s = Ok (fst (list_until T S f ys s)).
+Proof. exact cinorder_stop. Qed.
+Print Assumptions C03_inorder_stop.
 
 (* Tree.Cursor(k), for every lawful comparison and every search tree: it is valid exactly when the
    tree holds a key equivalent to k, it then lies inside the tree and Key is that stored
@@ -137,3 +147,7 @@ Proof. vm_compute. repeat split; reflexivity. Qed.
 
 Example C03_clone_value_example : clone (CAt [L; R]) = CAt [L; R] /\ clone CNil = CNil.
 Proof. vm_compute. split; reflexivity. Qed.
+
+Example C03_inorder_stop_example :
+  cinorder ex_tree (CAt []) (fun (acc : list Z) x => (x :: acc, Nat.ltb (length acc) 1)) [] = Ok [2%Z; 1%Z].
+Proof. vm_compute. reflexivity. Qed.
